@@ -222,7 +222,7 @@ _TRANS = {
     "C15": (["Gws.Props.TransQueue"], ["TransEquiv.getJob_eq"]),
     "C19": (["Gws.Props.TransMap"], ["TransEquiv.shardIndex_eq"]),
     "C10": (["Gws.Props.TransHandshake"], ["TransEquiv.HttpHeaderContainsToken_eq", "TransEquiv.GetIntersectionElem_eq", "TransEquiv.requestChecks_eq",
-                                          "TransEquiv.serverDecide_requestChecks", "TransEquiv.WithHeader_eq", "TransEquiv.keyAndAccept_eq", "TransEquiv.WithSubProtocol_eq"]),
+                                          "TransEquiv.serverDecide_requestChecks", "TransEquiv.WithHeader_eq", "TransEquiv.keyAndAccept_eq", "TransEquiv.WithSubProtocol_eq", "TransEquiv.deleteProtectedHeaders_eq"]),
     "C11": (["Gws.Props.TransHandshake"], ["TransEquiv.HttpHeaderContainsToken_eq", "TransEquiv.GetIntersectionElem_eq", "TransEquiv.InCollection_eq",
                                           "TransEquiv.checkHeaders_eq", "TransEquiv.getSubProtocol_eq", "TransEquiv.request_headers_eq"]),
     "C05": (["Gws.Props.TransFrame", "Gws.Props.TransClose", "Gws.Props.TransWriter", "Gws.Props.TransCompress"],
